@@ -54,8 +54,8 @@ class Prop(Check):
         "Proc.C13_phase",
     ]
     DRIVER = "Drivers/Proc.lean"
-    QUICK_CASES = 500
-    THOROUGH_CASES = 20000
+    QUICK_CASES = 390
+    THOROUGH_CASES = 12000
     RULE = ("generated grammars with 2..5 common rules, 0..3 abstract rules (nested, with match-rule alternatives, "
             "wrapped alternatives), recursive containment, references with postponement schedules, user classes, "
             "1..3 files; processors on all rules or a random subset, 15% of the calls return a replacement; "
@@ -570,4 +570,4 @@ class Prop(Check):
         return c
 
     def extra_search(self, rng, tier, broken):
-        return list(self.gen(rng, 1500, tier))
+        return list(self.gen(rng, 600 if tier == "quick" else 4000, tier))
